@@ -61,10 +61,10 @@ Qed.
 (* ------------------------------------------------------------------ the translated guard and whitelist *)
 Lemma dunder_private : forall n, is_dunder n = true -> is_private n = true.
 Proof.
-  intros n. unfold is_dunder, is_private.
-  destruct n as [|a n]; cbn; [discriminate|].
-  destruct (Ascii.ascii_dec "_" a); [|intros H; exact H]. Show.
-  intros _. destruct n; reflexivity.
+  intros n. unfold is_dunder, is_private. destruct n as [|a n]; [discriminate|].
+  change (String.prefix "__" (String a n)) with (if Ascii.ascii_dec "_" a then String.prefix "_" n else false).
+  change (String.prefix "_" (String a n)) with (if Ascii.ascii_dec "_" a then String.prefix "" n else false).
+  destruct (Ascii.ascii_dec "_" a); [|auto]. intros _. destruct n; reflexivity.
 Qed.
 
 (* a name that passes the translated guard is not private *)
@@ -90,3 +90,652 @@ Proof.
   intros n H. unfold repaired_guard in H. apply andb_true_iff in H. destruct H as [H1 H2].
   apply negb_true_iff in H1. apply negb_true_iff in H2. auto.
 Qed.
+
+(* ------------------------------------------------------------------ events of one operation *)
+Definition evs_of (r : opres) : list event := match r with RV _ e _ => e | RX _ e => e end.
+
+Section Direct.
+  Variable g : string -> bool.
+  Variable h : heap.
+  Variable locals : env.
+  Let D := direct_event g locals.
+
+  Lemma unk_D : forall args, Forall D (evs_of (unk args)).
+  Proof. intros args. unfold unk. destruct (forallb cleanb args); cbn; repeat constructor. Qed.
+
+  Ltac crush_D :=
+    repeat (cbn [evs_of ret exc bool_val add_evs app];
+            match goal with
+            | |- Forall _ (evs_of (unk _)) => apply unk_D
+            | |- Forall _ [] => constructor
+            | |- Forall _ (evs_of (match ?x with _ => _ end)) => destruct x
+            | |- Forall _ (evs_of (if ?x then _ else _)) => destruct x
+            end).
+
+  Lemma getitem_D : forall a b, Forall D (evs_of (getitem a b)).
+  Proof. intros a b. unfold getitem. crush_D. Qed.
+
+  Lemma binop_int_D : forall o x y, Forall D (evs_of (binop_int o x y)).
+  Proof. intros o x y. unfold binop_int. crush_D. Qed.
+  Lemma exec_bin_D : forall o a b, Forall D (evs_of (exec_bin o a b)).
+  Proof.
+    intros o a b. unfold exec_bin.
+    destruct a; try apply binop_int_D; destruct b; try apply binop_int_D; crush_D.
+  Qed.
+  Lemma exec_cmp_D : forall c a b, Forall D (evs_of (exec_cmp c a b)).
+  Proof. intros c a b. unfold exec_cmp. crush_D. Qed.
+  Lemma exec_un_D : forall u a, Forall D (evs_of (exec_un u a)).
+  Proof. intros u a. unfold exec_un. crush_D. Qed.
+  Lemma call_builtin_D : forall n args, Forall D (evs_of (call_builtin n args)).
+  Proof. intros n args. unfold call_builtin. crush_D. Qed.
+
+  Lemma fmt_events_D : forall s, Forall D (fmt_events s).
+  Proof.
+    intros s. unfold fmt_events. apply Forall_app. split.
+    - apply Forall_forall. intros e Hin. apply in_map_iff in Hin. destruct Hin as [r [<- _]]. exact I.
+    - destruct (f_any s); repeat constructor.
+  Qed.
+  Lemma format_call_D : forall a s, Forall D (evs_of (format_call h a s)).
+  Proof.
+    intros a s. unfold format_call. destruct (is_ascii s); [|cbn; repeat constructor].
+    destruct (format_string h a s) as [st|c st]; [|destruct (f_taint st)]; cbn; apply fmt_events_D.
+  Qed.
+  Lemma call_fmt_D : forall recv m args, Forall D (evs_of (call_fmt h recv m args)).
+  Proof.
+    intros recv m args. unfold call_fmt.
+    repeat (cbn [evs_of ret exc];
+            match goal with
+            | |- Forall _ (evs_of (format_call _ _ _)) => apply format_call_D
+            | |- Forall _ [] => constructor
+            | |- Forall _ [ReadAny] => repeat constructor
+            | |- Forall _ (evs_of (match ?x with _ => _ end)) => destruct x
+            | |- Forall _ (evs_of (if ?x then _ else _)) => destruct x
+            end).
+  Qed.
+  Lemma add_evs_D : forall pre r, Forall D pre -> Forall D (evs_of r) -> Forall D (evs_of (add_evs pre r)).
+  Proof. intros pre r H1 H2. destruct r; cbn in *; apply Forall_app; auto. Qed.
+  Lemma apply_call_D : forall f args, Forall D (evs_of (apply_call h f args)).
+  Proof.
+    intros f args. unfold apply_call.
+    repeat (cbn [evs_of ret exc];
+            match goal with
+            | |- Forall _ (evs_of (unk _)) => apply unk_D
+            | |- Forall _ (evs_of (add_evs _ _)) => apply add_evs_D; [repeat constructor|]
+            | |- Forall _ (evs_of (call_fmt _ _ _ _)) => apply call_fmt_D
+            | |- Forall _ (evs_of (call_builtin _ _)) => apply call_builtin_D
+            | |- Forall _ [] => constructor
+            | |- Forall _ (evs_of (match ?x with _ => _ end)) => destruct x
+            | |- Forall _ (evs_of (if ?x then _ else _)) => destruct x
+            end).
+  Qed.
+  Lemma exec_call_D : forall f b, Forall D (evs_of (exec_call h f b)).
+  Proof.
+    intros f b. unfold exec_call. destruct (unpack b) as [[args|]|]; [apply apply_call_D | | apply unk_D].
+    destruct (cleanb f); [constructor | apply unk_D].
+  Qed.
+  Lemma get_member_D : forall obj m, Forall D (evs_of (get_member g h obj m)).
+  Proof.
+    intros obj m. unfold get_member. destruct m as [t|v].
+    - destruct t; cbn; try constructor. destruct (g name) eqn:Hg; cbn; [|constructor].
+      destruct (getattr_val h obj name); cbn; repeat constructor; exact Hg.
+    - destruct (getattr_val h v "offset") as [x t|c]; [destruct t|]; cbn; repeat constructor.
+  Qed.
+  Lemma exec_sem_D : forall sem args, Forall D (evs_of (exec_sem g h sem args)).
+  Proof.
+    intros sem args. unfold exec_sem.
+    repeat (cbn [evs_of ret exc];
+            match goal with
+            | |- Forall _ (evs_of (unk _)) => apply unk_D
+            | |- Forall _ (evs_of (get_member _ _ _ _)) => apply get_member_D
+            | |- Forall _ (evs_of (getitem _ _)) => apply getitem_D
+            | |- Forall _ (evs_of (exec_call _ _ _)) => apply exec_call_D
+            | |- Forall _ (evs_of (exec_un _ _)) => apply exec_un_D
+            | |- Forall _ (evs_of (exec_bin _ _ _)) => apply exec_bin_D
+            | |- Forall _ (evs_of (exec_cmp _ _ _)) => apply exec_cmp_D
+            | |- Forall _ [] => constructor
+            | |- Forall _ (evs_of (match ?x with _ => _ end)) => destruct x
+            | |- Forall _ (evs_of (if ?x then _ else _)) => destruct x
+            end).
+  Qed.
+End Direct.
+
+(* ------------------------------------------------------------------ cleanliness is preserved *)
+Lemma nth_clean : forall l n v, forallb cleanb l = true -> nth_error l n = Some v -> cleanb v = true.
+Proof. intros l n v H Hn. rewrite forallb_forall in H. apply H. eapply nth_error_In; eauto. Qed.
+
+Lemma dict_lookup_clean : forall k kvs v,
+  forallb (fun kv => match kv with (k, x) => cleanb k && cleanb x end) kvs = true ->
+  dict_lookup k kvs = Some (Some v) -> cleanb v = true.
+Proof.
+  intros k kvs v. induction kvs as [|[k' x] r IH]; cbn; [discriminate|].
+  intros H. apply andb_true_iff in H. destruct H as [H1 H2]. apply andb_true_iff in H1. destruct H1 as [_ Hx].
+  destruct (py_eq k k') as [[|]|]; [intros E; inversion E; subst; exact Hx | auto | discriminate].
+Qed.
+
+Lemma str_index_clean : forall s n v, str_index s n = Some v -> cleanb v = true.
+Proof. intros s n v. unfold str_index. destruct (String.get n s); intros E; inversion E. reflexivity. Qed.
+
+Lemma keys_clean : forall kvs,
+  forallb (fun kv => match kv with (k, x) => cleanb k && cleanb x end) kvs = true -> forallb cleanb (map fst kvs) = true.
+Proof.
+  induction kvs as [|[k x] r IH]; cbn; [reflexivity|]. intros H.
+  apply andb_true_iff in H. destruct H as [H1 H2]. apply andb_true_iff in H1. destruct H1 as [Hk _].
+  rewrite Hk. cbn. auto.
+Qed.
+
+Lemma pairs_clean : forall l p, forallb cleanb l = true -> pairs_of l = Some p ->
+  forallb (fun kv => match kv with (k, x) => cleanb k && cleanb x end) p = true.
+Proof.
+  induction l as [|a l IH]; cbn; intros p H E.
+  - inversion E. reflexivity.
+  - apply andb_true_iff in H. destruct H as [Ha Hl].
+    destruct a; try discriminate;
+      (destruct l0 as [|k [|x [|? ?]]]; try discriminate;
+       destruct (pairs_of l) as [q|] eqn:Eq; try discriminate; inversion E; subst;
+       cbn in Ha |- *; rewrite andb_true_r in Ha; rewrite Ha; cbn; eapply IH; eauto).
+Qed.
+
+Lemma app_clean : forall x y, forallb cleanb x = true -> forallb cleanb y = true -> forallb cleanb (x ++ y) = true.
+Proof. intros x y Hx Hy. rewrite forallb_app, Hx, Hy. reflexivity. Qed.
+
+(* ------------------------------------------------------------------ the machine preserves an invariant *)
+Section Machine.
+  Variable g : string -> bool.
+  Variable h : heap.
+  Variable locals : env.
+  Variable P : event -> Prop.          (* what every logged event satisfies *)
+  Variable I : item -> Prop.           (* what every stack item satisfies *)
+  Hypothesis I_push : forall t, (forall n, t = TId n -> I (ITok t)) -> I (ITok t).
+  Hypothesis HV : forall i, I i ->
+    match get_value locals i with XV v e => I (IVal v) /\ Forall P e | XX _ e => Forall P e end.
+  Hypothesis HC : forall l, Forall I l -> I (IVal (VTuple (all_values l))) /\ I (IVal (VList (all_values l))).
+  Hypothesis HS : forall sem args, Forall I args ->
+    match exec_sem g h sem args with RV v e _ => I (IVal v) /\ Forall P e | RX _ e => Forall P e end.
+
+  Lemma expand_args_inv : forall flags items, Forall I items ->
+    match expand_args locals flags items with (r, e, _) => Forall I r /\ Forall P e end.
+  Proof.
+    induction flags as [|f fr IH]; intros items Hi; cbn; [split; constructor|].
+    destruct items as [|i ir]; [split; constructor|].
+    inversion Hi as [|? ? Hi1 Hi2]; subst. specialize (IH ir Hi2).
+    destruct f.
+    - pose proof (HV i Hi1) as Hv. destruct (get_value locals i) as [v e|c e].
+      + destruct (expand_args locals fr ir) as [[r e2] x]. destruct IH as [IH1 IH2]. destruct Hv as [Hv1 Hv2].
+        split; [constructor; assumption | apply Forall_app; auto].
+      + split; [constructor | exact Hv].
+    - destruct (expand_args locals fr ir) as [[r e2] x]. destruct IH as [IH1 IH2].
+      split; [constructor; assumption | assumption].
+  Qed.
+
+  Lemma take_top_inv : forall n stack, Forall I stack ->
+    Forall I (fst (take_top n stack)) /\ Forall I (snd (take_top n stack)).
+  Proof.
+    intros n stack Hs. unfold take_top. destruct n; cbn [fst snd].
+    - split; [apply Forall_rev; exact Hs | constructor].
+    - rewrite <- (firstn_skipn (Datatypes.S n) stack) in Hs. apply Forall_app in Hs. destruct Hs as [H1 H2].
+      split; [apply Forall_rev; exact H1 | exact H2].
+  Qed.
+
+  Definition tok_ok (t : token) : Prop := forall n, t = TId n -> I (ITok t).
+
+  Lemma step_inv : forall t s, tok_ok t -> Forall I (m_stack s) -> Forall P (m_log s) ->
+    match step g h locals t s with
+    | MOk s' => Forall I (m_stack s') /\ Forall P (m_log s')
+    | MExc _ l _ => Forall P l
+    end.
+  Proof.
+    intros t s Ht Hs Hl. unfold step.
+    destruct t; try (cbn; split; [constructor; [apply I_push; exact Ht | exact Hs] | exact Hl]).
+    - (* FixedSizeCollection *)
+      pose proof (take_top_inv size (m_stack s) Hs) as [Htop Hrest].
+      destruct (take_top size (m_stack s)) as [top rest]. cbn [fst snd] in *.
+      pose proof (expand_args_inv (map (fun _ => true) top) top Htop) as He.
+      destruct (expand_args locals (map (fun _ => true) top) top) as [[vals evs] x]. destruct He as [He1 He2].
+      destruct x as [c|]; [apply Forall_app; auto|].
+      cbn. split; [|apply Forall_app; auto].
+      constructor; [|exact Hrest]. destruct (HC vals He1) as [Ht1 Ht2]. destruct k; assumption.
+    - (* operator *)
+      destruct (find_op name operators) as [o|]; [|exact Hl].
+      pose proof (take_top_inv (op_arity o) (m_stack s) Hs) as [Htop Hrest].
+      destruct (take_top (op_arity o) (m_stack s)) as [top rest]. cbn [fst snd] in *.
+      pose proof (expand_args_inv (op_expand o) top Htop) as He.
+      destruct (expand_args locals (op_expand o) top) as [[args evs] x]. destruct He as [He1 He2].
+      destruct x as [c|]; [apply Forall_app; auto|].
+      destruct (negb (Nat.eqb (Datatypes.length args) (op_params o))); [apply Forall_app; auto|].
+      pose proof (HS (op_sem o) args He1) as Hx.
+      destruct (exec_sem g h (op_sem o) args) as [v e t|c e].
+      + destruct Hx as [Hx1 Hx2]. cbn. split; [constructor; assumption | repeat (apply Forall_app; split); auto].
+      + repeat (apply Forall_app; split); auto.
+  Qed.
+
+  Lemma run_inv : forall rpn s, Forall tok_ok rpn -> Forall I (m_stack s) -> Forall P (m_log s) ->
+    match run g h locals rpn s with
+    | MOk s' => Forall I (m_stack s') /\ Forall P (m_log s')
+    | MExc _ l _ => Forall P l
+    end.
+  Proof.
+    induction rpn as [|t r IH]; intros s Hr Hs Hl; cbn; [auto|].
+    inversion Hr as [|? ? Ht Hr']; subst.
+    pose proof (step_inv t s Ht Hs Hl) as Hstep.
+    destruct (step g h locals t s) as [s1|c l tt]; [|exact Hstep].
+    destruct Hstep as [H1 H2]. apply IH; assumption.
+  Qed.
+
+  Theorem eval_inv : forall rpn, Forall tok_ok rpn -> Forall P (log (eval_g g rpn h locals)).
+  Proof.
+    intros rpn Hr. unfold eval_g.
+    pose proof (run_inv rpn m_init Hr (Forall_nil _) (Forall_nil _)) as Hrun.
+    destruct (run g h locals rpn m_init) as [s|c l t]; [|exact Hrun].
+    destruct Hrun as [Hs Hl]. unfold finish.
+    destruct (m_stack s) as [|i [|j r]]; try exact Hl.
+    inversion Hs as [|? ? Hi _]; subst.
+    destruct i as [t|v]; [|exact Hl].
+    destruct t; try exact Hl.
+    pose proof (HV (ITok (TId name)) Hi) as Hv.
+    destruct (get_value locals (ITok (TId name))) as [v e|c e]; cbn.
+    - destruct Hv as [_ Hv]. apply Forall_app; auto.
+    - apply Forall_app; auto.
+  Qed.
+End Machine.
+
+(* ------------------------------------------------------------------ safety under a clean environment *)
+Arguments is_fmt : simpl never.
+Section Safe.
+  Variable g : string -> bool.
+  Variable h : heap.
+  Variable locals : env.
+  Hypothesis Hg : forall n, g n = true -> is_private n = false.
+  Hypothesis Hheap : clean_heap h = true.
+  Let S := safe_event g locals.
+
+  Definition good (r : opres) : Prop :=
+    match r with RV v e _ => cleanb v = true /\ Forall S e | RX _ e => Forall S e end.
+
+  Lemma good_unk : forall args, forallb cleanb args = true -> good (unk args).
+  Proof. intros args H. unfold unk. rewrite H. split; [reflexivity | constructor]. Qed.
+
+  Ltac solve_clean :=
+    first [ reflexivity | assumption
+          | eapply nth_clean; [|eassumption]; eassumption
+          | eapply dict_lookup_clean; [|eassumption]; eassumption
+          | eapply str_index_clean; eassumption
+          | cbn in *; rewrite ?andb_true_r in *;
+            first [ assumption | reflexivity | apply keys_clean; assumption
+                  | eapply pairs_clean; [|eassumption]; assumption ] ].
+
+  Ltac crush_good :=
+    repeat (match goal with
+            | H : false = true |- _ => discriminate H
+            | H : true = false |- _ => discriminate H
+            | |- good (unk _) => apply good_unk; solve_clean
+            | |- good (ret _) => unfold good, ret
+            | |- good (exc _) => unfold good, exc
+            | |- good (bool_val _) => unfold good, bool_val, ret
+            | |- good (RV _ _ _) => unfold good
+            | |- good (RX _ _) => unfold good
+            | |- _ /\ Forall _ [] => split; [solve_clean | constructor]
+            | |- Forall _ [] => constructor
+            | |- good (match ?x with _ => _ end) => destruct x eqn:?
+            | |- good (if ?x then _ else _) => destruct x eqn:?
+            end).
+
+  Lemma getitem_good : forall a b, cleanb a = true -> cleanb b = true -> good (getitem a b).
+  Proof.
+    intros a b Ha Hb. assert (Hab : forallb cleanb [a; b] = true) by (cbn; rewrite Ha, Hb; reflexivity).
+    unfold getitem. destruct a; cbn [cleanb] in Ha; try discriminate; crush_good.
+  Qed.
+
+  Lemma binop_int_good : forall o x y, good (binop_int o x y).
+  Proof. intros o x y. unfold binop_int. crush_good. Qed.
+
+  Lemma exec_bin_good : forall o a b, cleanb a = true -> cleanb b = true -> good (exec_bin o a b).
+  Proof.
+    intros o a b Ha Hb. assert (Hab : forallb cleanb [a; b] = true) by (cbn; rewrite Ha, Hb; reflexivity).
+    unfold exec_bin.
+    destruct a; cbn [cleanb] in Ha; try discriminate; destruct b; cbn [cleanb] in Hb; try discriminate;
+      try apply binop_int_good; crush_good;
+      try (split; [cbn [cleanb]; apply app_clean; assumption | constructor]).
+  Qed.
+
+  Lemma exec_cmp_good : forall c a b, cleanb a = true -> cleanb b = true -> good (exec_cmp c a b).
+  Proof.
+    intros c a b Ha Hb. assert (Hab : forallb cleanb [a; b] = true) by (cbn; rewrite Ha, Hb; reflexivity).
+    unfold exec_cmp. crush_good.
+  Qed.
+
+  Lemma exec_un_good : forall u a, cleanb a = true -> good (exec_un u a).
+  Proof.
+    intros u a Ha. assert (Hab : forallb cleanb [a] = true) by (cbn; rewrite Ha; reflexivity).
+    unfold exec_un. crush_good.
+  Qed.
+
+  Lemma call_builtin_good : forall n args, forallb cleanb args = true -> good (call_builtin n args).
+  Proof. intros n args Hargs. unfold call_builtin. crush_good. Qed.
+
+  Lemma good_add_evs : forall pre r, Forall S pre -> good r -> good (add_evs pre r).
+  Proof.
+    intros pre r Hp Hr. destruct r; cbn in *.
+    - destruct Hr as [Hv He]. split; [exact Hv | apply Forall_app; auto].
+    - apply Forall_app; auto.
+  Qed.
+
+  Lemma apply_call_good : forall f args, cleanb f = true -> forallb cleanb args = true -> good (apply_call h f args).
+  Proof.
+    intros f args Hf Hargs.
+    assert (Hall : forallb cleanb (f :: args) = true) by (cbn; rewrite Hf, Hargs; reflexivity).
+    assert (Hcall : Forall S [Call f args]) by (repeat constructor).
+    unfold apply_call. destruct f; cbn [cleanb] in Hf; try discriminate;
+      try (rewrite Hall; unfold good, exc; constructor).
+    - rewrite Hargs. apply good_add_evs; [exact Hcall | apply call_builtin_good; exact Hargs].
+    - apply andb_true_iff in Hf. destruct Hf as [_ Hn]. apply negb_true_iff in Hn. rewrite Hn.
+      apply good_add_evs; [exact Hcall | apply good_unk; exact Hall].
+    - apply good_add_evs; [exact Hcall | apply good_unk; exact Hall].
+  Qed.
+
+  Lemma unpack_clean : forall b args, cleanb b = true -> unpack b = Some (Some args) -> forallb cleanb args = true.
+  Proof.
+    intros b args Hb. destruct b; cbn; intros E; inversion E; subst; cbn [cleanb] in Hb; auto using keys_clean.
+  Qed.
+
+  Lemma exec_call_good : forall f b, cleanb f = true -> cleanb b = true -> good (exec_call h f b).
+  Proof.
+    intros f b Hf Hb. assert (Hab : forallb cleanb [f; b] = true) by (cbn; rewrite Hf, Hb; reflexivity).
+    unfold exec_call. destruct (unpack b) as [[args|]|] eqn:E.
+    - apply apply_call_good; [exact Hf | eapply unpack_clean; eauto].
+    - rewrite Hf. unfold good, exc. constructor.
+    - apply good_unk. exact Hab.
+  Qed.
+
+  Lemma heap_attrs_clean : forall i, forallb (fun a => cleanb (snd a)) (heap_attrs h i) = true.
+  Proof.
+    intros i. unfold clean_heap in Hheap. revert Hheap. generalize h. induction h0 as [|[j a] r IH]; cbn; [reflexivity|].
+    intros H. apply andb_true_iff in H. destruct H as [Ha Hr]. destruct (Nat.eqb i j); auto.
+  Qed.
+
+  Lemma assoc_clean : forall n (l : list (string * val)) v,
+    forallb (fun a => cleanb (snd a)) l = true -> assoc n l = Some v -> cleanb v = true.
+  Proof.
+    intros n l v. induction l as [|[k x] r IH]; cbn; [discriminate|].
+    intros H. apply andb_true_iff in H. destruct H as [Hx Hr].
+    destruct (String.eqb n k); [intros E; inversion E; subst; exact Hx | auto].
+  Qed.
+
+  (* the member name passes the guard and does not name an attribute-reading member *)
+  Definition ok_name (n : string) : Prop := g n = true -> is_fmt n = false.
+  Definition ok_item (i : item) : Prop :=
+    match i with IVal v => cleanb v = true | ITok (TId n) => ok_name n | ITok _ => True end.
+
+  Lemma get_member_good : forall obj m, cleanb obj = true -> ok_item m -> good (get_member g h obj m).
+  Proof.
+    intros obj m Hobj Hm. unfold get_member. destruct m as [t|v].
+    - destruct t; try (unfold good, exc; constructor).
+      destruct (g name) eqn:Hgn; [|unfold good, exc; constructor].
+      assert (Hp : is_private name = false) by (apply Hg; exact Hgn).
+      assert (Hd : is_dunder name = false).
+      { destruct (is_dunder name) eqn:E; [|reflexivity]. apply dunder_private in E. congruence. }
+      assert (Hf : is_fmt name = false) by (apply Hm; exact Hgn).
+      assert (Hev : Forall S [ReadAttr ByMember obj name]).
+      { repeat constructor; [exact Hp | intros _; exact Hgn]. }
+      unfold getattr_val. rewrite Hd.
+      destruct obj; cbn [cleanb] in Hobj; try discriminate; cbn;
+        try (split; [cbn; rewrite ?Hobj, ?Hf; reflexivity | exact Hev]); try exact Hev.
+            destruct (assoc name (heap_attrs h id)) eqn:E; cbn.
+      + split; [eapply assoc_clean; [apply heap_attrs_clean | exact E] | exact Hev].
+      + exact Hev.
+    - assert (Hev : Forall S [ReadAttr ByOffset v "offset"]).
+      { repeat constructor. discriminate. }
+      destruct (getattr_val h v "offset") as [x t|c]; [destruct t|]; cbn; exact Hev.
+  Qed.
+
+  Lemma good_opaque : good (RV VOpaque [] true).
+  Proof. split; [reflexivity | constructor]. Qed.
+
+  Lemma exec_sem_good : forall sem args, Forall ok_item args -> good (exec_sem g h sem args).
+  Proof.
+    intros sem args Hargs. unfold exec_sem.
+    destruct args as [|a1 [|a2 [|a3 r]]].
+    - destruct sem; apply good_opaque.
+    - inversion Hargs as [|? ? H1 _]; subst. destruct a1 as [t|a]; destruct sem; try apply good_opaque.
+      apply exec_un_good. exact H1.
+    - inversion Hargs as [|? ? H1 H']; subst. inversion H' as [|? ? H2 _]; subst.
+      destruct a1 as [t1|a]; [destruct sem; apply good_opaque|].
+      cbn in H1.
+      destruct sem; try apply good_opaque.
+      + apply get_member_good; [exact H1 | exact H2].
+      + destruct a2 as [t2|b2]; [apply good_opaque|]. apply getitem_good; assumption.
+      + destruct a2 as [t2|b2]; [apply good_opaque|]. apply exec_call_good; assumption.
+      + destruct a2 as [t2|b2]; [apply good_opaque|]. apply exec_bin_good; assumption.
+      + destruct a2 as [t2|b2]; [apply good_opaque|]. apply exec_cmp_good; assumption.
+      + destruct a2 as [t2|b2]; [apply good_opaque|]. cbn in H2.
+        destruct (truthy a) as [[|]|]; [unfold good, ret; split; [assumption|constructor] ..
+                                       | apply good_unk; cbn; rewrite H1, H2; reflexivity].
+      + destruct a2 as [t2|b2]; [apply good_opaque|]. cbn in H2.
+        destruct (truthy a) as [[|]|]; [unfold good, ret; split; [assumption|constructor] ..
+                                       | apply good_unk; cbn; rewrite H1, H2; reflexivity].
+      + destruct a2 as [t2|b2]; [apply good_opaque|]. cbn in H2.
+        unfold good, ret. split; [cbn; rewrite H1, H2; reflexivity | constructor].
+      + destruct a2 as [t2|b2]; [apply good_opaque|]. cbn in H2.
+        destruct (truthy a) as [t|]; [apply getitem_good; [assumption | reflexivity]
+                                     | apply good_unk; cbn; rewrite H1, H2; reflexivity].
+    - destruct sem; try apply good_opaque; destruct a1; try apply good_opaque; destruct a2; apply good_opaque.
+  Qed.
+
+  Hypothesis Henv : clean_env locals = true.
+
+  Lemma assoc_In_dom : forall n (l : env) v, assoc n l = Some v -> In n (dom l).
+  Proof.
+    intros n l v. induction l as [|[k x] r IH]; cbn; [discriminate|].
+    destruct (String.eqb_spec n k); [intros _; left; auto | intros E; right; auto].
+  Qed.
+
+  Lemma get_value_good : forall i, ok_item i ->
+    match get_value locals i with XV v e => ok_item (IVal v) /\ Forall S e | XX _ e => Forall S e end.
+  Proof.
+    intros i Hi. destruct i as [t|v]; cbn; [|split; [exact Hi | constructor]].
+    destruct t; cbn; try (split; [reflexivity | constructor]); try constructor.
+    destruct (assoc name locals) as [v|] eqn:E.
+    - split; [eapply assoc_clean; [exact Henv | exact E] |].
+      apply Forall_cons; [left; eapply assoc_In_dom; eauto | constructor].
+    - destruct (mem_str name whitelist) eqn:Ew; [|constructor].
+      split; [reflexivity|]. apply Forall_cons; [right; apply mem_str_In; exact Ew | constructor].
+  Qed.
+
+  Lemma all_values_clean : forall l, Forall ok_item l -> forallb cleanb (all_values l) = true.
+  Proof.
+    induction l as [|[t|v] r IH]; intros H; cbn; [reflexivity | |]; inversion H; subst; auto.
+    cbn in *. rewrite H2. cbn. auto.
+  Qed.
+
+  Theorem eval_safe : forall rpn,
+    (forall n, In n (idents rpn) -> ok_name n) ->
+    Forall S (log (eval_g g rpn h locals)).
+  Proof.
+    intros rpn Hid.
+    apply (eval_inv g h locals S ok_item).
+    - intros t Ht. destruct t; try exact I. apply (Ht name). reflexivity.
+    - exact get_value_good.
+    - intros l Hl. pose proof (all_values_clean l Hl) as Hc. split; exact Hc.
+    - intros sem args Hargs. apply exec_sem_good. exact Hargs.
+    - clear -Hid. induction rpn as [|t r IH]; constructor.
+      + intros n ->. apply Hid. left. reflexivity.
+      + apply IH. intros n Hn. apply Hid. destruct t; cbn; auto.
+  Qed.
+End Safe.
+
+(* ------------------------------------------------------------------ the evaluator's own reads (unconditional) *)
+Section DirectMachine.
+  Variable g : string -> bool.
+  Variable h : heap.
+  Variable locals : env.
+
+  Lemma get_value_D : forall i,
+    match get_value locals i with
+    | XV v e => True /\ Forall (direct_event g locals) e
+    | XX _ e => Forall (direct_event g locals) e end.
+  Proof.
+    intros i. destruct i as [t|v]; cbn; [|split; [exact I | constructor]].
+    destruct t; cbn; try (split; [exact I | constructor]); try constructor.
+    destruct (assoc name locals) as [v|] eqn:E.
+    - split; [exact I|]. apply Forall_cons; [left | constructor].
+      clear -E. induction locals as [|[k x] r IH]; cbn in *; [discriminate|].
+      destruct (String.eqb_spec name k); [left; auto | right; auto].
+    - destruct (mem_str name whitelist) eqn:Ew; [|constructor].
+      split; [exact I|]. apply Forall_cons; [right; apply mem_str_In; exact Ew | constructor].
+  Qed.
+
+  Theorem eval_direct : forall rpn, Forall (direct_event g locals) (log (eval_g g rpn h locals)).
+  Proof.
+    intros rpn.
+    apply (eval_inv g h locals (direct_event g locals) (fun _ => True)).
+    - intros; exact I.
+    - intros i _. apply get_value_D.
+    - intros; split; exact I.
+    - intros sem args _. pose proof (exec_sem_D g h locals sem args) as H.
+      destruct (exec_sem g h sem args); cbn in H; [split; [exact I | exact H] | exact H].
+    - clear. induction rpn; constructor; [intros n _; exact I | assumption].
+  Qed.
+End DirectMachine.
+
+(* ------------------------------------------------------------------ the property *)
+(* every event of every evaluation over a data environment is safe *)
+Definition C19_statement (g : string -> bool) : Prop :=
+  forall rpn h locals, clean_heap h = true -> clean_env locals = true ->
+  forall ev, In ev (log (eval_g g rpn h locals)) -> safe_event g locals ev.
+
+Lemma is_fmt_format_names : forall n, is_fmt n = mem_str n format_names.
+Proof. reflexivity. Qed.
+
+(* core: any guard that is sound for privacy, on expressions none of whose guard-passing identifiers
+   names an attribute-reading member *)
+Theorem C19_core : forall g, (forall n, g n = true -> is_private n = false) ->
+  forall rpn h locals, (forall n, In n (idents rpn) -> g n = true -> is_fmt n = false) ->
+  clean_heap h = true -> clean_env locals = true ->
+  forall ev, In ev (log (eval_g g rpn h locals)) -> safe_event g locals ev.
+Proof.
+  intros g Hg rpn h locals Hid Hh He ev Hin.
+  pose proof (eval_safe g h locals Hg Hh He rpn Hid) as H.
+  rewrite Forall_forall in H. apply H. exact Hin.
+Qed.
+
+Theorem C19_full_if_guard_denies_format_thm : guard_denies_format = true -> C19_statement member_allowed.
+Proof.
+  intros Hd rpn h locals Hh He ev Hin.
+  apply (C19_core member_allowed guard_sound rpn h locals); auto.
+  intros n _ Hn. destruct (is_fmt n) eqn:Ef; [|reflexivity].
+  unfold guard_denies_format in Hd. rewrite forallb_forall in Hd.
+  unfold is_fmt in Ef. apply mem_str_In in Ef. specialize (Hd n Ef). rewrite Hn in Hd. discriminate.
+Qed.
+
+(* D12 carve-out: expressions that do not mention format / format_map *)
+Theorem C19_partial_thm : forall rpn h locals, mentions_format rpn = false ->
+  clean_heap h = true -> clean_env locals = true ->
+  forall ev, In ev (log (eval rpn h locals)) -> safe_event member_allowed locals ev.
+Proof.
+  intros rpn h locals Hm Hh He ev Hin.
+  apply (C19_core member_allowed guard_sound rpn h locals); auto.
+  intros n Hn _. rewrite is_fmt_format_names.
+  unfold mentions_format in Hm. destruct (mem_str n format_names) eqn:E; [|reflexivity].
+  assert (existsb (fun n => mem_str n format_names) (idents rpn) = true) as Hx
+    by (apply existsb_exists; exists n; auto).
+  congruence.
+Qed.
+
+(* the repair considered for D12 (also refuse format / format_map) is sufficient *)
+Theorem C19_repair_sufficient : C19_statement repaired_guard.
+Proof.
+  intros rpn h locals Hh He ev Hin.
+  apply (C19_core repaired_guard (fun n H => proj1 (repaired_guard_sound n H)) rpn h locals); auto.
+  intros n _ Hn. apply (repaired_guard_sound n Hn).
+Qed.
+
+Theorem C19_direct_thm : forall rpn h locals ev, In ev (log (eval rpn h locals)) ->
+  match ev with
+  | ReadAttr ByMember v n => member_allowed n = true /\ is_private n = false
+  | ReadAttr ByOffset v n => n = "offset"
+  | Resolve n => In n (dom locals) \/ In n whitelist
+  | _ => True
+  end.
+Proof.
+  intros rpn h locals ev Hin.
+  pose proof (eval_direct member_allowed h locals rpn) as H. rewrite Forall_forall in H.
+  specialize (H ev Hin). destruct ev as [o v n| n | f a |]; cbn in H; auto.
+  destruct o; auto. split; [exact H | apply guard_sound; exact H].
+Qed.
+
+(* ------------------------------------------------------------------ witnesses *)
+Definition wit_heap : heap := [(0%nat, [("pub", VInt 1); ("_x", VInt 42)])].
+Definition wit_locals : env := [("o", VObj 0); ("d", VDict [(VStr "a", VObj 0)])].
+(* '{0._x}'.format(o) *)
+Definition wit_format : list token :=
+  [TStr "{0._x}"; TId "format"; TOp "MEMBER_ACCESS"; TId "o"; TColl 1 CTuple; TOp "FUNCTION_CALL"].
+(* '{a._x}'.format_map(d) *)
+Definition wit_format_map : list token :=
+  [TStr "{a._x}"; TId "format_map"; TOp "MEMBER_ACCESS"; TId "d"; TColl 1 CTuple; TOp "FUNCTION_CALL"].
+
+Definition refutes (g : string -> bool) (rpn : list token) (h : heap) (locals : env) : bool :=
+  clean_heap h && clean_env locals && existsb (fun e => negb (safe_eventb g locals e)) (log (eval_g g rpn h locals)).
+
+Lemma refutes_spec : forall g rpn h locals, refutes g rpn h locals = true ->
+  clean_heap h = true /\ clean_env locals = true /\
+  exists ev, In ev (log (eval_g g rpn h locals)) /\ ~ safe_event g locals ev.
+Proof.
+  intros g rpn h locals H. unfold refutes in H.
+  apply andb_true_iff in H. destruct H as [H H3]. apply andb_true_iff in H. destruct H as [H1 H2].
+  split; [exact H1|]. split; [exact H2|].
+  apply existsb_exists in H3. destruct H3 as [ev [Hin Hev]]. exists ev. split; [exact Hin|].
+  intros Hs. apply safe_eventb_spec in Hs. rewrite Hs in Hev. discriminate.
+Qed.
+
+(* D12: while the guard lets format or format_map through, the full statement is false *)
+Theorem C19_refuted_if_not_thm : guard_denies_format = false ->
+  exists rpn h locals, clean_heap h = true /\ clean_env locals = true /\
+  exists ev, In ev (log (eval rpn h locals)) /\ ~ safe_event member_allowed locals ev.
+Proof.
+  unfold guard_denies_format, fmt_methods. cbn [forallb]. intros H.
+  destruct (member_allowed "format") eqn:E1.
+  - exists wit_format, wit_heap, wit_locals. apply refutes_spec.
+    first [ vm_compute; reflexivity | exfalso; vm_compute in E1; discriminate E1 ].
+  - destruct (member_allowed "format_map") eqn:E2; [|cbn in H; discriminate H].
+    exists wit_format_map, wit_heap, wit_locals. apply refutes_spec.
+    first [ vm_compute; reflexivity | exfalso; vm_compute in E2; discriminate E2 ].
+Qed.
+
+(* the data-environment hypothesis cannot be dropped: an object exposing an ordinary Python function
+   (here a generator method, as every TreeNode does) lets control escape (D20) *)
+Definition wit_heap_foreign : heap := [(0%nat, [("walk", VForeign); ("_x", VInt 42)])].
+(* (o.walk)(o) *)
+Definition wit_foreign : list token :=
+  [TId "o"; TId "walk"; TOp "MEMBER_ACCESS"; TId "o"; TColl 1 CTuple; TOp "FUNCTION_CALL"].
+Theorem C19_needs_clean_env_thm :
+  exists rpn h locals, mentions_format rpn = false /\ clean_env locals = true /\
+  In ReadAny (log (eval rpn h locals)).
+Proof.
+  exists wit_foreign, wit_heap_foreign, wit_locals.
+  split; [reflexivity|]. split; [reflexivity|].
+  assert (existsb (fun e => match e with ReadAny => true | _ => false end)
+                  (log (eval wit_foreign wit_heap_foreign wit_locals)) = true) as H by (vm_compute; reflexivity).
+  apply existsb_exists in H. destruct H as [e [Hin He]]. destruct e; try discriminate. exact Hin.
+Qed.
+
+(* ------------------------------------------------------------------ the hypotheses are satisfiable *)
+(* o.pub + 1 over the witness environment: a clean environment with a private attribute, a format-free
+   expression, and a log that really contains a member read and a resolution *)
+Definition ex_rpn : list token := [TId "o"; TId "pub"; TOp "MEMBER_ACCESS"; TInt 1; TOp "ADDITION"].
+Example C19_partial_nontrivial :
+  mentions_format ex_rpn = false /\ clean_heap wit_heap = true /\ clean_env wit_locals = true /\
+  log (eval ex_rpn wit_heap wit_locals) = [Resolve "o"; ReadAttr ByMember (VObj 0) "pub"] /\
+  r_out (eval ex_rpn wit_heap wit_locals) = OutItem (IVal (VInt 2)).
+Proof. vm_compute. repeat split; reflexivity. Qed.
+
+(* the repaired guard turns the D12 witness into a ParseError with no attribute read on the object *)
+Example C19_repair_blocks_witness :
+  r_out (eval_g repaired_guard wit_format wit_heap wit_locals) = OutExc "ParseError" /\
+  log (eval_g repaired_guard wit_format wit_heap wit_locals) = [] /\
+  r_out (eval_g repaired_guard ex_rpn wit_heap wit_locals) = OutItem (IVal (VInt 2)).
+Proof. vm_compute. repeat split; reflexivity. Qed.
+
+(* private members are refused by the translated guard, whatever the object *)
+Example C19_private_member_refused :
+  r_out (eval [TId "o"; TId "_x"; TOp "MEMBER_ACCESS"] wit_heap wit_locals) = OutExc "ParseError" /\
+  log (eval [TId "o"; TId "_x"; TOp "MEMBER_ACCESS"] wit_heap wit_locals) = [Resolve "o"].
+Proof. vm_compute. split; reflexivity. Qed.
